@@ -58,6 +58,13 @@ def flatSim (cfg : Cfg) (rk : List Nat) (p : Sid) : Bool :=
 
 def flatB (cfg : Cfg) (rk : List Nat) : Bool := (List.range cfg.n).all (fun p => cfg.flatSim rk p)
 
+/-- pushed connections are flat and covered by the destination's input-delay table (`PushOk`) -/
+def pushSim (cfg : Cfg) (p : Sid) : Bool :=
+  (cfg.sim p).push.all (fun e => decide (e.2.1 < cfg.n) && e.2.2.1.cutoff == 1 && e.2.2.1.tiers.length == 1 &&
+    (cfg.sim e.2.1).inputDelays.any (fun qd => qd.1 == p && TI.leB qd.2 e.2.2.1))
+
+def pushB (cfg : Cfg) : Bool := (List.range cfg.n).all (fun p => cfg.pushSim p)
+
 /-- candidate ranking: length of the longest chain of zero-delay connections ending in a simulator
 (`n` rounds of relaxation; correct whenever the zero-delay connections are acyclic) -/
 def zeroRank (cfg : Cfg) : List Nat :=
